@@ -11,6 +11,7 @@
 //       beside each of the six planes (ambiguous = within the rounding margin of a boundary; counted, not judged).
 //
 // usage: c16_corr <seed> <n>     one summary line `C16CORR …`, failures as `C16CORR-FAIL <key> …`
+//        c16_corr spec <seed>    executable specification on lattice frusta: `C16SPEC …`, failures as `SPECFAIL <group> …`
 #include <ImathFrustum.h>
 #include <ImathFrustumTest.h>
 #include "sym/c16_hand.h"
@@ -59,6 +60,15 @@ static Fr genFrustum (int k)
     F.b          = cy - w * U (0.2, 1);
     F.t          = cy + w * U (0.2, 1);
     F.ortho      = (k / 2) % 2 == 1;
+    // INPUT DOMAIN of this sweep: planes (p, M) takes the cross product of two far-corner differences and then its
+    // length: at float that overflows when (far/near)^2 * width * height exceeds ~1.8e19 (Vec3::length has no overflow
+    // scaling).  Such frusta are excluded here and probed separately (`info:float_far_plane_overflow…`).
+    double ov = (F.f / F.n) * (F.f / F.n) * (F.r - F.l) * (F.t - F.b);
+    if (!F.ortho && ov > 1e15)
+    {
+        double sh = std::sqrt (ov / 1e15);
+        F.l /= sh; F.r /= sh; F.t /= sh; F.b /= sh;
+    }
     return F;
 }
 template <class T> static Frustum<T> mk (const Fr& F) { return Frustum<T> ((T) F.n, (T) F.f, (T) F.l, (T) F.r, (T) F.t, (T) F.b, F.ortho); }
@@ -244,7 +254,7 @@ template <class T> static void planesM (const Fr& F, int k)
                              std::fabs ((L) real[i].normal.z - model[i].normal.z)});
             L kap = 1 + (L) trScale / ((L) s * size) + (F.ortho ? 0 : (L) std::fabs (F.f / F.n) * 0);
             record ("H:planesM_float_vs_transcript_normal/(eps*kT)", (double) (e / (eps * kap)));
-            if (!(e <= 64 * eps * kap)) fail ("H:planesM:float:plane" + std::to_string (i), show (fr));
+            if (!(e <= 32 * eps * kap)) fail ("H:planesM:float:plane" + std::to_string (i), show (fr));
         }
     }
     // R: expected = analytic planes (p), mapped by the actual M (extended precision): n' = normalize (n A^-T), d' = n' . (p0 * M)
@@ -261,7 +271,8 @@ template <class T> static void planesM (const Fr& F, int k)
     L ext  = std::max ({(L) std::fabs (F.l), (L) std::fabs (F.r), (L) std::fabs (F.t), (L) std::fabs (F.b), (L) std::fabs (F.n)});
     L kapW = 1 + ext / size; // wide / off-axis windows: the side-plane cross products cancel
     // orthographic planes (p, M) builds the side planes from one near and two FAR corners: long thin frusta lose |f| / window
-    if (F.ortho) kapW *= 1 + (L) std::fabs (F.f) / size;
+    // … and frusta with far ~ near cancel in (far corner - near corner)
+    if (F.ortho) kapW *= (1 + (L) std::fabs (F.f) / size) * (((L) std::fabs (F.f) + (L) std::fabs (F.n)) / (L) std::fabs (F.f - F.n));
     for (int i = 0; i < 6; ++i)
     {
         // row-vector convention: a point x maps to x A + T, so a normal (as a row covector acting by n . x) maps to n (A^-1)^T
@@ -280,7 +291,7 @@ template <class T> static void planesM (const Fr& F, int k)
         record ("planesM_vs_mapped_planes_normal/(eps*kT*kW):" + w, (double) (en / (eps * kapT * kapW)));
         record ("planesM_vs_mapped_planes_distance/(eps*kT*kW*scale):" + w, (double) (ed / (eps * kapT * kapW)));
         ++hits[std::string ("R:planesM_vs_mapped:") + tn<T> ()];
-        if (!(en <= 64 * eps * kapT * kapW && ed <= 64 * eps * kapT * kapW))
+        if (!(en <= 16 * eps * kapT * kapW && ed <= 16 * eps * kapT * kapW))
         {
             char d[160];
             snprintf (d, 160, " plane %d normal err %.3g dist err %.3g (in units of eps*k)", i, (double) (en / (eps * kapT * kapW)), (double) (ed / (eps * kapT * kapW)));
@@ -452,7 +463,7 @@ template <class T> static void culling (const Fr& F0, int k)
     for (int i = 0; i < 3; ++i) { C.tr[i] = C.M[3][i]; for (int j = 0; j < 3; ++j) C.Rm[i][j] = (L) C.M[i][j] / s; }
     C.ft = FrustumTest<T> (C.fr, C.M);
     exactPlanes (C.fr, C.pl);
-    C.margin = (getenv ("C16_MARGIN_SCALE") ? (L) atof (getenv ("C16_MARGIN_SCALE")) : 1) * (sizeof (T) == 4 ? 2e-4L : 1e-11L) * (1 + (std::fabs ((L) C.tr[0]) + std::fabs ((L) C.tr[1]) + std::fabs ((L) C.tr[2])) / (s * std::fabs ((L) F.n)));
+    C.margin = (getenv ("C16_MARGIN_SCALE") ? (L) atof (getenv ("C16_MARGIN_SCALE")) : 1) * (sizeof (T) == 4 ? 4e-6L : 1e-13L) * (1 + (std::fabs ((L) C.tr[0]) + std::fabs ((L) C.tr[1]) + std::fabs ((L) C.tr[2])) / (s * std::fabs ((L) F.n)));
     std::string frs = show (C.fr) + " M=[";
     char b[64];
     for (int i = 0; i < 4; ++i) for (int j = 0; j < 3; ++j) { snprintf (b, 64, "%.9g ", (double) C.M[i][j]); frs += b; }
@@ -461,8 +472,267 @@ template <class T> static void culling (const Fr& F0, int k)
         for (int kase = 0; kase < 7; ++kase) cullCase (C, plane, kase, frs);
 }
 
+
+// ------------------------------------------------------------------ executable specification on lattice frusta (double)
+// Used (a) on every run as a second tie between the real code and the statements proved in Props/C16.lean and (b) by the
+// check's failing-input search: when a theorem stops elaborating, the group of relations it belongs to is evaluated on the
+// real code and the first violated relation is the replay.  Relations are evaluated at double on small dyadic frusta with a
+// relative tolerance of 1e-9; ties (`>=` against `>`) use orthographic frusta with the identity camera, where every
+// quantity is an exactly representable number.
+static long specFails = 0, specEvals = 0;
+static void sfail (const char* group, const std::string& what)
+{
+    ++specFails;
+    if (specFails <= 30) printf ("SPECFAIL %s %s\n", group, what.c_str ());
+}
+static bool close (double a, double b, double scale = 1) { return std::fabs (a - b) <= 1e-9 * (std::fabs (a) + std::fabs (b) + scale); }
+struct FrX : Frustum<double>
+{
+    FrX (const Frustum<double>& f) : Frustum<double> (f) {}
+    using Frustum<double>::screenToLocal;
+    using Frustum<double>::localToScreen;
+};
+static void specOne (const Fr& F, int k)
+{
+    Frustum<double> fr = mk<double> (F);
+    FrX             fx (fr);
+    std::string     fs = show (fr);
+    double n = F.n, f = F.f, l = F.l, r = F.r, t = F.t, b = F.b;
+    char   buf[300];
+    Matrix44<double> M = fr.projectionMatrix ();
+    // projectionMatrix: corners -> cube corners
+    for (int c = 0; c < 8; ++c)
+    {
+        bool cx = c & 1, cy = c & 2, cz = c & 4;
+        double s = (cz && !F.ortho) ? f / n : 1;
+        Vec3<double> p ((cx ? r : l) * s, (cy ? t : b) * s, -(cz ? f : n)), q = p * M;
+        ++specEvals;
+        if (!(close (q.x, cx ? 1 : -1) && close (q.y, cy ? 1 : -1) && close (q.z, cz ? 1 : -1)))
+        {
+            snprintf (buf, 300, " corner (%g %g %g) -> (%.12g %.12g %.12g), expected (%d %d %d)", p.x, p.y, p.z, q.x, q.y, q.z, cx ? 1 : -1, cy ? 1 : -1, cz ? 1 : -1);
+            sfail ("projectionMatrix", fs + buf);
+        }
+    }
+    // projectPointToScreen = (p*M).xy ; ray through every point projecting to s ; screenToLocal/localToScreen
+    for (int j = 0; j < 4; ++j)
+    {
+        Vec3<double> p (I (-8, 8) / 4.0, I (-8, 8) / 4.0, -(n + (f - n) * I (1, 7) / 8.0));
+        Vec3<double> q = p * M;
+        Vec2<double> sp = fr.projectPointToScreen (p);
+        ++specEvals;
+        if (!(close (sp.x, q.x) && close (sp.y, q.y)))
+        {
+            snprintf (buf, 300, " p=(%g %g %g): projectPointToScreen=(%.12g %.12g) but (p*M).xy=(%.12g %.12g)", p.x, p.y, p.z, sp.x, sp.y, q.x, q.y);
+            sfail ("projectPointToScreen", fs + buf);
+        }
+        Vec2<double> s2 (I (-4, 4) / 4.0, I (-4, 4) / 4.0);
+        Line3<double> ray = fr.projectScreenToRay (s2);
+        for (double u : {0.5, 1.0, 3.0})
+        {
+            Vec3<double> pt = ray (u * (F.ortho ? 1 : n));
+            if (!F.ortho && pt.z == 0) continue;
+            Vec2<double> back = fr.projectPointToScreen (pt);
+            ++specEvals;
+            if (!(close (back.x, s2.x) && close (back.y, s2.y)))
+            {
+                snprintf (buf, 300, " s=(%g %g): ray point (%.12g %.12g %.12g) projects to (%.12g %.12g)", s2.x, s2.y, pt.x, pt.y, pt.z, back.x, back.y);
+                sfail ("projectScreenToRay", fs + buf);
+            }
+        }
+        Vec2<double> loc = fx.screenToLocal (s2), scr = fx.localToScreen (loc);
+        Vec2<double> c0 = fx.screenToLocal (Vec2<double> (-1, -1)), c1 = fx.screenToLocal (Vec2<double> (1, 1));
+        ++specEvals;
+        if (!(close (scr.x, s2.x) && close (scr.y, s2.y) && close (c0.x, l) && close (c0.y, b) && close (c1.x, r) && close (c1.y, t)))
+        {
+            snprintf (buf, 300, " s=(%g %g): screenToLocal=(%.12g %.12g) localToScreen of it=(%.12g %.12g); corners (%.12g %.12g) (%.12g %.12g)", s2.x, s2.y, loc.x, loc.y, scr.x, scr.y, c0.x, c0.y, c1.x, c1.y);
+            sfail ("screenLocal", fs + buf);
+        }
+        // depth
+        double zn = I (0, 8) / 8.0, d = fr.normalizedZToDepth (zn);
+        Vec3<double> qd = Vec3<double> (0.25, -0.5, d) * M;
+        double Zp = c16_depthToZp (fr, d);
+        long   zr = fr.DepthToZ (d, 0, 1000);
+        ++specEvals;
+        if (!(close (qd.z, 2 * zn - 1) && close ((Zp + 1) / 2, zn) && std::labs (zr - (long) (zn * 1000)) <= 1 &&
+              close (fr.normalizedZToDepth (0.0), -n) && close (fr.normalizedZToDepth (1.0), -f)))
+        {
+            snprintf (buf, 300, " zn=%g: normalizedZToDepth=%.12g matrix depth=%.12g Zp=%.12g DepthToZ(.,0,1000)=%ld", zn, d, qd.z, Zp, zr);
+            sfail ("depth", fs + buf);
+        }
+        // radii
+        double rad = I (1, 8) / 4.0, sr = fr.screenRadius (p, rad), wr = fr.worldRadius (p, sr);
+        ++specEvals;
+        if (!(close (wr, rad) && close (sr, (p.x + rad) * n / -p.z - p.x * n / -p.z)))
+        {
+            snprintf (buf, 300, " p.z=%g radius=%g: screenRadius=%.12g worldRadius(screenRadius)=%.12g", p.z, rad, sr, wr);
+            sfail ("radius", fs + buf);
+        }
+        // window: the new near-plane window, seen from the old frustum, is the requested rectangle; full screen = same frustum
+        double wl = I (-4, 0) / 4.0, wrr = I (1, 4) / 4.0, wt = I (1, 4) / 4.0, wb = I (-4, 0) / 4.0;
+        Frustum<double> w = fr.window (wl, wrr, wt, wb), wf = fr.window (-1, 1, 1, -1);
+        Vec2<double> a0 = fx.localToScreen (Vec2<double> (w.left (), w.bottom ())), a1 = fx.localToScreen (Vec2<double> (w.right (), w.top ()));
+        ++specEvals;
+        if (!(close (a0.x, wl) && close (a0.y, wb) && close (a1.x, wrr) && close (a1.y, wt) && w.nearPlane () == n && w.farPlane () == f &&
+              w.orthographic () == F.ortho && close (wf.left (), l) && close (wf.right (), r) && close (wf.top (), t) && close (wf.bottom (), b)))
+        {
+            snprintf (buf, 300, " window(%g %g %g %g) -> l=%.12g r=%.12g t=%.12g b=%.12g", wl, wrr, wt, wb, w.left (), w.right (), w.top (), w.bottom ());
+            sfail ("window", fs + buf);
+        }
+    }
+    // ctor / set / degenerate
+    {
+        Frustum<double> g (9, 8, 7, 6, 5, 4, !F.ortho);
+        g.set (n, f, l, r, t, b, F.ortho);
+        ++specEvals;
+        if (!(g == fr && fr.nearPlane () == n && fr.farPlane () == f && fr.left () == l && fr.right () == r && fr.top () == t && fr.bottom () == b &&
+              fr.orthographic () == F.ortho && !fr.degenerate () && Frustum<double> (n, n, l, r, t, b).degenerate () &&
+              Frustum<double> (n, f, l, l, t, b).degenerate () && Frustum<double> (n, f, l, r, t, t).degenerate ()))
+            sfail ("ctor", fs + " constructor / set / accessors / degenerate");
+    }
+    // fov / aspect / set (fov, aspect)
+    {
+        double fov = I (1, 6) / 4.0, asp = I (2, 8) / 4.0, nn = n;
+        Frustum<double> a (nn, f, fov, 0.0, asp), c (nn, f, 0.0, fov, asp), e = fr;
+        e.set (nn, f, fov, 0.0, asp);
+        ++specEvals;
+        if (!(close (a.fovx (), fov) && close (a.aspect (), asp) && close (c.fovy (), fov) && close (c.aspect (), asp) && a.left () == -a.right () &&
+              a.bottom () == -a.top () && close (a.right (), nn * std::tan (fov / 2)) && close (c.top (), nn * std::tan (fov / 2)) && !a.orthographic () &&
+              e == a && close (fr.aspect (), (r - l) / (t - b)) && close (fr.fovx (), std::atan2 (r, n) - std::atan2 (l, n)) &&
+              close (fr.fovy (), std::atan2 (t, n) - std::atan2 (b, n))))
+        {
+            snprintf (buf, 300, " set(n=%g, f=%g, fov=%g, aspect=%g): fovx=%.12g aspect=%.12g | fovy form: fovy=%.12g aspect=%.12g", nn, f, fov, asp, a.fovx (), a.aspect (), c.fovy (), c.aspect ());
+            sfail ("fov", fs + buf);
+        }
+    }
+    // modifyNearAndFar keeps the view angles (perspective) / the window (orthographic)
+    {
+        double n2 = n * I (1, 6) / 2.0, f2 = n2 * 4;
+        Frustum<double> g = fr;
+        g.modifyNearAndFar (n2, f2);
+        double sc = F.ortho ? 1 : n2 / n;
+        ++specEvals;
+        if (!(g.nearPlane () == n2 && g.farPlane () == f2 && close (g.left (), l * sc) && close (g.right (), r * sc) && close (g.top (), t * sc) &&
+              close (g.bottom (), b * sc) && g.orthographic () == F.ortho))
+        {
+            snprintf (buf, 300, " modifyNearAndFar(%g, %g) -> n=%.12g f=%.12g l=%.12g r=%.12g t=%.12g b=%.12g", n2, f2, g.nearPlane (), g.farPlane (), g.left (), g.right (), g.top (), g.bottom ());
+            sfail ("modify", fs + buf);
+        }
+    }
+    // planes (p): order top,right,bottom,left,near,far; unit outward normals; each face's four corners on its plane, the
+    // frustum centre strictly inside all six
+    {
+        Plane3<double> P[6];
+        fr.planes (P);
+        double sF = F.ortho ? 1 : f / n;
+        Vec3<double> C[8]; // index: bit0 = right, bit1 = top, bit2 = far
+        for (int c = 0; c < 8; ++c) { double s = (c & 4) ? sF : 1; C[c] = Vec3<double> (((c & 1) ? r : l) * s, ((c & 2) ? t : b) * s, -((c & 4) ? f : n)); }
+        static const int face[6][4] = {{2, 3, 6, 7}, {1, 3, 5, 7}, {0, 1, 4, 5}, {0, 2, 4, 6}, {0, 1, 2, 3}, {4, 5, 6, 7}};
+        Vec3<double> ctr (0, 0, 0);
+        for (auto& c : C) ctr += c / 8.0;
+        double size = std::fabs (f) + std::fabs (r) + std::fabs (l) + std::fabs (t) + std::fabs (b);
+        for (int i = 0; i < 6; ++i)
+        {
+            bool ok = close (P[i].normal.length (), 1) && P[i].distanceTo (ctr) < 0;
+            for (int c = 0; c < 8; ++c)
+            {
+                bool onFace = c == face[i][0] || c == face[i][1] || c == face[i][2] || c == face[i][3];
+                double d = P[i].distanceTo (C[c]);
+                if (onFace ? !(std::fabs (d) <= 1e-9 * size) : !(d < 0)) ok = false;
+            }
+            ++specEvals;
+            if (!ok)
+            {
+                static const char* nm[6] = {"top", "right", "bottom", "left", "near", "far"};
+                snprintf (buf, 300, " plane[%d] (expected the %s plane, outward unit normal) = normal (%.12g %.12g %.12g) distance %.12g", i, nm[i], P[i].normal.x, P[i].normal.y, P[i].normal.z, P[i].distance);
+                sfail ("planes", fs + buf);
+            }
+        }
+        // planes (p, M): the same planes mapped by a rigid, uniformly scaled M
+        Matrix44<double> Mc = rigid<double> (std::ldexp (1.0, I (-2, 2)), n, true);
+        Plane3<double>   PM[6];
+        fr.planes (PM, Mc);
+        for (int i = 0; i < 6 && (!F.ortho || n < f); ++i)
+        {
+            bool ok = close (PM[i].normal.length (), 1) && PM[i].distanceTo (ctr * Mc) < 0;
+            for (int c = 0; c < 8; ++c)
+            {
+                bool onFace = c == face[i][0] || c == face[i][1] || c == face[i][2] || c == face[i][3];
+                double d = PM[i].distanceTo (C[c] * Mc);
+                if (onFace ? !(std::fabs (d) <= 1e-9 * size * 8) : !(d < 0)) ok = false;
+            }
+            ++specEvals;
+            if (!ok)
+            {
+                snprintf (buf, 300, " planes(p,M)[%d] = normal (%.12g %.12g %.12g) distance %.12g does not contain the mapped face / is not outward", i, PM[i].normal.x, PM[i].normal.y, PM[i].normal.z, PM[i].distance);
+                sfail ("planesM", fs + buf);
+            }
+        }
+    }
+    // FrustumTest, exact ties: orthographic frustum, identity camera, dyadic numbers: every quantity is exact
+    if (F.ortho && n < f)
+    {
+        Matrix44<double>    Id;
+        FrustumTest<double> ft (fr, Id);
+        double cx = (l + r) / 2, cy = (b + t) / 2, cz = -(n + f) / 2, rho = std::min ({r - l, t - b, f - n}) / 8;
+        struct Face { double x, y, z, nx, ny, nz; } faces[6] = {{cx, t, cz, 0, 1, 0}, {r, cy, cz, 1, 0, 0}, {cx, b, cz, 0, -1, 0}, {l, cy, cz, -1, 0, 0}, {cx, cy, -n, 0, 0, 1}, {cx, cy, -f, 0, 0, -1}};
+        for (int i = 0; i < 6; ++i)
+        {
+            const Face& A = faces[i];
+            auto at = [&] (double off) { return Vec3<double> (A.x + off * A.nx, A.y + off * A.ny, A.z + off * A.nz); };
+            bool okP = ft.isVisible (at (-rho)) && !ft.isVisible (at (0)) && !ft.isVisible (at (rho));
+            // sphere: centre at signed distance off from the plane
+            bool okS = ft.isVisible (Sphere3<double> (at (rho / 2), rho)) && ft.isVisible (Sphere3<double> (at (-rho / 2), rho)) &&
+                       !ft.isVisible (Sphere3<double> (at (rho), rho)) && !ft.isVisible (Sphere3<double> (at (2 * rho), rho)) &&
+                       ft.completelyContains (Sphere3<double> (at (-2 * rho), rho)) && !ft.completelyContains (Sphere3<double> (at (-rho), rho)) &&
+                       !ft.completelyContains (Sphere3<double> (at (-rho / 2), rho));
+            auto box = [&] (double off) { Vec3<double> c = at (off); return Box<Vec3<double>> (c - Vec3<double> (rho), c + Vec3<double> (rho)); };
+            bool okB = ft.isVisible (box (rho / 2)) && ft.isVisible (box (-rho / 2)) && !ft.isVisible (box (rho)) && !ft.isVisible (box (2 * rho)) &&
+                       ft.completelyContains (box (-2 * rho)) && !ft.completelyContains (box (-rho)) && !ft.completelyContains (box (-rho / 2)) &&
+                       !ft.isVisible (Box<Vec3<double>> ()) && !ft.completelyContains (Box<Vec3<double>> ());
+            ++specEvals;
+            if (!(okP && okS && okB))
+            {
+                snprintf (buf, 300, " plane %d, objects of size %g at offsets {-2,-1,-1/2,0,1/2,1,2}*size from the face point (%g %g %g): point ok=%d sphere ok=%d box ok=%d "
+                          "(strictly inside <=> visible; touching from outside is NOT visible; touching from inside is NOT completely contained)", i, rho, A.x, A.y, A.z, (int) okP, (int) okS, (int) okB);
+                sfail ("frustumtest", fs + buf);
+            }
+        }
+    }
+}
+static int specMain (unsigned long seed)
+{
+    rng.seed (seed * 7919 + 5);
+    for (int k = 0; k < 240; ++k)
+    {
+        Fr F;
+        F.n = std::ldexp (1.0, I (-2, 3));
+        F.f = F.n * (double[]){2, 4, 8, 16}[k % 4];
+        F.l = I (-12, 4) / 4.0 * F.n; F.r = F.l + I (1, 12) / 4.0 * F.n;
+        F.b = I (-12, 4) / 4.0 * F.n; F.t = F.b + I (1, 12) / 4.0 * F.n;
+        F.ortho = (k / 4) % 2 == 1;
+        specOne (F, k);
+    }
+    printf ("C16SPEC evals=%ld failures=%ld\n", specEvals, specFails);
+    return specFails ? 1 : 0;
+}
+
+// the overflow limitation, measured on a fixed input (not judged): far/near = 1e6 with a window of several near distances
+static void overflowProbe ()
+{
+    Frustum<float> fr (390.092346f, 390092352.f, 1154.62439f, 6716.17383f, 944.499451f, -4814.44336f, false);
+    Matrix44<float> Id;
+    Plane3<float>   p[6];
+    fr.planes (p, Id);
+    bool degenerate = p[5].normal.x == 0 && p[5].normal.y == 0 && p[5].normal.z == 0;
+    FrustumTest<float> ft (fr, Id);
+    bool vis = ft.isVisible (Vec3<float> (3000.f, -2000.f, -1000.f)); // well inside: 390 < 1000 < 3.9e8, x*n/1000 = 1170 in [1154, 6716], y*n/1000 = -780 in [-4814, 944]
+    hits["info:float_far_plane_overflow:normal_is_zero"]                 = degenerate ? 1 : 0;
+    hits["info:float_far_plane_overflow:interior_point_reported_invisible"] = vis ? 0 : 1;
+}
+
 int main (int argc, char** argv)
 {
+    if (argc > 1 && !strcmp (argv[1], "spec")) return specMain (argc > 2 ? strtoul (argv[2], 0, 10) : 1);
     unsigned long seed = argc > 1 ? strtoul (argv[1], 0, 10) : 1;
     int           n    = argc > 2 ? atoi (argv[2]) : 200;
     rng.seed (seed * 2654435761ul + 16);
@@ -476,6 +746,7 @@ int main (int argc, char** argv)
         if (G.f / G.n > 1e4) G.f = G.n * 100; // culling: objects sized by the free room; extreme ratios leave no room on the near faces
         culling<float> (G, k); culling<double> (G, k);
     }
+    overflowProbe ();
     long evals = 0;
     for (auto& kv : hits) if (kv.first.find ("ambiguous") == std::string::npos && kv.first.find ("info:") != 0 && kv.first.find ("touching") == std::string::npos && kv.first.find ("poking") == std::string::npos && kv.first.find ("within_1") == std::string::npos) evals += kv.second;
     printf ("C16CORR evals=%ld failures=%ld\n", evals, failures);
